@@ -16,6 +16,9 @@ by TAB; every string is percent-encoded (safe: letters, digits, `_ . -`; the emp
   elements with PAN-OS's default content count as absent (absent `<rule-type>` = `universal`, …).
 * `DEVEXEC shared A groups` — `execDevAll`: the whole plan (`name|cmds` joined by `!`) on the whole device `A`;
   answer: `ok  <device reached>` or `err  <reason>`.
+* `PREDICT shared A B` — what the model of the unchanged planner does on the vsys pair: plan, strict execution,
+  second plan; answer `n= accepted= err= equiv= mismatch= wf= sgdropref= shape1= shape2=  <refused request>  <plan>  <second plan>`
+  (`shape`: three bits — only requests on lists mixing a group with other members / only re-sent changed service-groups / only these two kinds).
 * `MYERS n m bits` — the port of `myers.Diff` on an equality matrix; answer: ranges.
 PLAN flags per targeted pair also say whether the pair lies in the fragment of the whole-vsys theorems
 (`plain`, `tnames`, `srvnd`, `grp`: `PlainPair`, `TgtNames`, `SrvNodup`, `GrpPair`).
@@ -170,7 +173,7 @@ def sgroupChanged (a b : Vsys) : Bool :=
 /-- Target names that collide after `genUniq*Names` (class of F-C03c; repaired). -/
 def uniqClash (a b : Vsys) : Bool :=
   !nodupB (uniqNames (ruleNames a.rules) (ruleNames b.rules)) ||
-  !nodupB (uniqNames (a.groups.map (·.name)) (b.groups.map (·.name)))
+  !nodupB (groupNamesFor a b)
 
 /-- A source / destination list with more than one member one of which is an address-group
 (class of F-C03d). -/
@@ -241,6 +244,65 @@ def answerExec (shared v cmds t : String) : String :=
       | none => ("-", "-")
     s!"accepted={k} err={(e.map enc).getD "-"} equiv={eqv} mismatch={mm} wf={b2s (wellFormed sh w)}\t{showVsys w}"
 
+/-! ### PREDICT: what the model of the unchanged planner does on a pair
+
+The harness judges the REAL requests; a failure is only excused as a known finding if the model of
+the unchanged code predicts exactly this failure on exactly this input (`model_predicts`), and if
+the failure has the shape of the finding, computed here from the input. -/
+
+/-- A list with several members one of which is an address-group of `v`. -/
+def mixedList (v : Vsys) (l : List String) : Bool :=
+  l.length > 1 && l.any (fun m => v.groups.any (·.name == m))
+
+/-- The request changes the source / destination of a rule of `v` whose list mixes a group with
+other members (class of F-C03e). -/
+def onMixedField (v : Vsys) : Cmd → Bool
+  | .delMem n f _ | .addMem n f _ | .editList n f _ =>
+    f != .srv && (match findRule v.rules n with
+      | some r => mixedList v (r.get f)
+      | none => false)
+  | _ => false
+
+/-- Same-named service-groups of device and target whose members differ: (name, members only the
+device has). -/
+def sgroupDropped (a b : Vsys) : List (String × List String) :=
+  b.sgroups.filterMap (fun gb =>
+    match a.sgroups.find? (·.name == gb.name) with
+    | some ga => if ga.members != gb.members then some (gb.name, ga.members.filter (fun m => !gb.members.contains m)) else none
+    | none => none)
+
+/-- The request re-sends the members of a same-named service-group whose members differ (class of F-C03a). -/
+def onChangedSGroup (a b : Vsys) : Cmd → Bool
+  | .setSGrp g _ => (sgroupDropped a b).any (·.1 == g)
+  | _ => false
+
+/-- The request removes a service that only the device's version of such a group holds. -/
+def dropsSGroupMember (a b : Vsys) : Cmd → Bool
+  | .delSvc x => (sgroupDropped a b).any (fun p => p.2.contains x)
+  | _ => false
+
+def answerPredict (shared a b : String) : String :=
+  match parseVsys a, parseVsys b with
+  | some va, some vb =>
+    let sh := decList shared
+    let cmds := planVsys myersDiff va vb
+    let (w, k, e) := execAll sh va cmds
+    let eqv := equivSem w vb
+    let refused := (cmds[k]?).map (fun c => (showCmd c, dropsSGroupMember va vb c))
+    let p2 := if k == cmds.length && eqv then planVsys myersDiff w vb else []
+    let p2s := if k == cmds.length && eqv then showCmds p2 else "-"
+    -- shape of a plan `p` for device state `v`: only requests on mixed lists / only re-sent changed
+    -- service-groups / only these two kinds with at least one of the first
+    let shape := fun (v : Vsys) (p : List Cmd) =>
+      let mix := !p.isEmpty && p.all (onMixedField v)
+      let sg := !p.isEmpty && p.all (onChangedSGroup va vb)
+      let both := !p.isEmpty && p.all (fun c => onMixedField v c || onChangedSGroup va vb c) && p.any (onMixedField v)
+      s!"{b2s mix}{b2s sg}{b2s both}"
+    s!"n={cmds.length} accepted={k} err={(e.map enc).getD "-"} equiv={b2s eqv} mismatch={mismatch w vb w.rules vb.rules} " ++
+    s!"wf={b2s (wellFormed sh w)} sgdropref={b2s ((refused.map (·.2)).getD false)} shape1={shape va cmds} shape2={shape w p2}" ++
+    s!"\t{(refused.map (·.1)).getD "-"}\t{showCmds cmds}\t{p2s}"
+  | _, _ => "bad-input"
+
 /-! ### DEVEXEC: a whole plan of `GetChanges` on the whole device -/
 
 def parseGroups (s : String) : List (String × List Cmd) :=
@@ -275,6 +337,7 @@ def answer (line : String) : String :=
   | ["PLAN", devA, devB, sh, a, b, sc] => answerPlan devA devB sh a b sc
   | ["EXEC", sh, v, cmds, t] => answerExec sh v cmds t
   | ["DEVEXEC", sh, dev, groups] => answerDevExec sh dev groups
+  | ["PREDICT", sh, a, b] => answerPredict sh a b
   | ["MYERS", n, m, bits] => answerMyers n m bits
   | _ => "bad-request"
 
